@@ -72,7 +72,13 @@ func (pth KeyPath) String() string {
 	for _, key := range pth {
 		switch key.enc {
 		case KeyEncodingURL:
-			res += "/" + url.PathEscape(string(key.name))
+			part := url.PathEscape(string(key.name))
+			if strings.HasPrefix(part, "x:") {
+				// KeyPathToKeys takes a part that starts with "x:" for a hex-encoded
+				// key: escape the colon so that the part decodes to the key itself.
+				part = "x%3A" + part[2:]
+			}
+			res += "/" + part
 		case KeyEncodingHex:
 			res += "/x:" + fmt.Sprintf("%X", key.name)
 		default:
